@@ -369,51 +369,155 @@ theorem cacheRead_ok_tag (idx : Nat) (s : FS) (h : (cacheRead idx s).1 = .ok ())
   · rw [he] at h; simp only at h; rw [hr] at h; cases h
   · exact ht
 
+/-! The write-backs: on a failed device write the cache forgets its block (`untag`). -/
+
+theorem writeBack_none {s : FS} (ht : s.cache.tag = none) : writeBack s = (.panic "write_back with no read", s) := by
+  unfold Sdmmc.Model.writeBack; rw [ht]
+
+theorem writeBack_ok {s : FS} {idx : Nat} (ht : s.cache.tag = some idx) (h : (devWrite idx s).1 = .ok ()) :
+    writeBack s = devWrite idx s := by
+  unfold Sdmmc.Model.writeBack; rw [ht]; dsimp only
+  rcases hd : Model.devWrite idx s with ⟨r, s'⟩
+  rw [hd] at h; simp only at h; subst h; rfl
+
+theorem writeBack_fail {s : FS} {idx : Nat} (ht : s.cache.tag = some idx) (h : (devWrite idx s).1 = .err .DeviceError) :
+    writeBack s = (.err .DeviceError, untag (devWrite idx s).2) := by
+  unfold Sdmmc.Model.writeBack; rw [ht]; dsimp only
+  rcases hd : Model.devWrite idx s with ⟨r, s'⟩
+  rw [hd] at h; simp only at h; subst h; rfl
+
+theorem writeBackDup_none (dup : Nat) {s : FS} (ht : s.cache.tag = none) :
+    writeBackWithDuplicate dup s = (.panic "write_back with no read", s) := by
+  unfold Sdmmc.Model.writeBackWithDuplicate; rw [ht]
+
+theorem writeBackDup_ok_ok (dup : Nat) {s : FS} {idx : Nat} (ht : s.cache.tag = some idx) (h1 : (devWrite idx s).1 = .ok ())
+    (h2 : (devWrite dup (devWrite idx s).2).1 = .ok ()) : writeBackWithDuplicate dup s = devWrite dup (devWrite idx s).2 := by
+  unfold Sdmmc.Model.writeBackWithDuplicate; rw [ht]; dsimp only
+  rcases hd : Model.devWrite idx s with ⟨r, s'⟩
+  rw [hd] at h1 h2; simp only at h1 h2; subst h1; dsimp only
+  rcases hd2 : Model.devWrite dup s' with ⟨r2, s2⟩
+  rw [hd2] at h2; simp only at h2; subst h2; rfl
+
+theorem writeBackDup_ok_fail (dup : Nat) {s : FS} {idx : Nat} (ht : s.cache.tag = some idx) (h1 : (devWrite idx s).1 = .ok ())
+    (h2 : (devWrite dup (devWrite idx s).2).1 = .err .DeviceError) :
+    writeBackWithDuplicate dup s = (.err .DeviceError, untag (devWrite dup (devWrite idx s).2).2) := by
+  unfold Sdmmc.Model.writeBackWithDuplicate; rw [ht]; dsimp only
+  rcases hd : Model.devWrite idx s with ⟨r, s'⟩
+  rw [hd] at h1 h2; simp only at h1 h2; subst h1; dsimp only
+  rcases hd2 : Model.devWrite dup s' with ⟨r2, s2⟩
+  rw [hd2] at h2; simp only at h2; subst h2; rfl
+
+theorem writeBackDup_fail (dup : Nat) {s : FS} {idx : Nat} (ht : s.cache.tag = some idx)
+    (h1 : (devWrite idx s).1 = .err .DeviceError) :
+    writeBackWithDuplicate dup s = (.err .DeviceError, untag (devWrite idx s).2) := by
+  unfold Sdmmc.Model.writeBackWithDuplicate; rw [ht]; dsimp only
+  rcases hd : Model.devWrite idx s with ⟨r, s'⟩
+  rw [hd] at h1; simp only at h1; subst h1; rfl
+
+theorem devWrite_result (idx : Nat) (s : FS) : (devWrite idx s).1 = .ok () ∨ (devWrite idx s).1 = .err .DeviceError := by
+  rcases devWrite_cases idx s with ⟨_, hr, _⟩ | ⟨_, hr, _⟩
+  · exact .inr hr
+  · exact .inl hr
+
+/-- A write-back is its device write(s), except that on a failure the cache forgets its block. -/
+def untagIfErr {α} (p : Res α × FS) : Res α × FS :=
+  match p.1 with
+  | .ok _ => p
+  | _ => (p.1, untag p.2)
+
+@[simp] theorem untagIfErr_fst {α} (p : Res α × FS) : (untagIfErr p).1 = p.1 := by
+  unfold untagIfErr; rcases p with ⟨r, s⟩; cases r <;> rfl
+@[simp] theorem untagIfErr_dev {α} (p : Res α × FS) : (untagIfErr p).2.dev = p.2.dev := by
+  unfold untagIfErr; rcases p with ⟨r, s⟩; cases r <;> rfl
+@[simp] theorem untagIfErr_vol {α} (p : Res α × FS) : (untagIfErr p).2.vol = p.2.vol := by
+  unfold untagIfErr; rcases p with ⟨r, s⟩; cases r <;> rfl
+@[simp] theorem untagIfErr_blk {α} (p : Res α × FS) : (untagIfErr p).2.cache.blk = p.2.cache.blk := by
+  unfold untagIfErr; rcases p with ⟨r, s⟩; cases r <;> rfl
+theorem untagIfErr_ok {α} (a : α) (s : FS) : untagIfErr ((.ok a, s) : Res α × FS) = (.ok a, s) := rfl
+theorem untagIfErr_err {α} (e : Err) (s : FS) : untagIfErr ((.err e, s) : Res α × FS) = (.err e, untag s) := rfl
+
+theorem writeBack_tagged {s : FS} {idx : Nat} (ht : s.cache.tag = some idx) : writeBack s = untagIfErr (devWrite idx s) := by
+  rcases devWrite_result idx s with hr | hr
+  · rw [writeBack_ok ht hr]
+    rcases hd : Model.devWrite idx s with ⟨r, s'⟩
+    rw [hd] at hr; simp only at hr; subst hr; rfl
+  · rw [writeBack_fail ht hr]
+    rcases hd : Model.devWrite idx s with ⟨r, s'⟩
+    rw [hd] at hr; simp only at hr; subst hr; rfl
+
+theorem writeBackDup_tagged (dup : Nat) {s : FS} {idx : Nat} (ht : s.cache.tag = some idx) :
+    writeBackWithDuplicate dup s = untagIfErr ((devWrite idx >>= fun _ => devWrite dup) s) := by
+  rw [F.bind_apply]
+  rcases devWrite_result idx s with hr | hr
+  · rcases devWrite_result dup (devWrite idx s).2 with hr2 | hr2
+    · rw [writeBackDup_ok_ok dup ht hr hr2]
+      rcases hd : Model.devWrite idx s with ⟨r, s'⟩
+      rw [hd] at hr hr2; simp only at hr hr2; subst hr
+      simp only
+      rcases hd2 : Model.devWrite dup s' with ⟨r2, s2⟩
+      rw [hd2] at hr2; simp only at hr2; subst hr2; rfl
+    · rw [writeBackDup_ok_fail dup ht hr hr2]
+      rcases hd : Model.devWrite idx s with ⟨r, s'⟩
+      rw [hd] at hr hr2; simp only at hr hr2; subst hr
+      simp only
+      rcases hd2 : Model.devWrite dup s' with ⟨r2, s2⟩
+      rw [hd2] at hr2; simp only at hr2; subst hr2; rfl
+  · rw [writeBackDup_fail dup ht hr]
+    rcases hd : Model.devWrite idx s with ⟨r, s'⟩
+    rw [hd] at hr; simp only at hr; subst hr; rfl
+
+theorem devWrite_fail_failed {idx : Nat} {s : FS} (h : (devWrite idx s).1 = .err .DeviceError) :
+    (devWrite idx s).2.dev.failed = s.dev.failed + 1 := by
+  rcases devWrite_cases idx s with ⟨_, _, hf, _⟩ | ⟨_, hr, _⟩
+  · exact hf
+  · rw [hr] at h; cases h
+
 theorem FaultStrict.writeBack : FaultStrict writeBack := by
   intro s h
-  unfold Sdmmc.Model.writeBack at h ⊢
   cases ht : s.cache.tag with
-  | none => rw [ht] at h; exact absurd rfl h
-  | some idx => rw [ht] at h; exact FaultStrict.devWrite idx s h
+  | none => rw [writeBack_none ht] at h; exact absurd rfl h
+  | some idx =>
+    rcases devWrite_result idx s with hr | hr
+    · rw [writeBack_ok ht hr] at h ⊢; exact FaultStrict.devWrite idx s h
+    · rw [writeBack_fail ht hr]
 
 theorem FaultMono.writeBack : FaultMono writeBack := by
   intro s
-  unfold Sdmmc.Model.writeBack
   cases ht : s.cache.tag with
-  | none => exact Nat.le_refl _
-  | some idx => exact FaultMono.devWrite idx s
-
-theorem writeBackWithDuplicate_eq (dup : Nat) :
-    writeBackWithDuplicate dup = fun s =>
-      match s.cache.tag with
-      | none => (.panic "write_back with no read", s)
-      | some idx => (devWrite idx >>= fun _ => devWrite dup) s := by
-  funext s
-  unfold writeBackWithDuplicate
-  cases ht : s.cache.tag with
-  | none => rfl
+  | none => rw [writeBack_none ht]; exact Nat.le_refl _
   | some idx =>
-    simp only [F.bind_apply]
-    rcases devWrite idx s with ⟨r, s'⟩
-    cases r <;> rfl
+    rcases devWrite_result idx s with hr | hr
+    · rw [writeBack_ok ht hr]; exact FaultMono.devWrite idx s
+    · rw [writeBack_fail ht hr]; exact FaultMono.devWrite idx s
 
 theorem FaultStrict.writeBackWithDuplicate (dup : Nat) : FaultStrict (writeBackWithDuplicate dup) := by
   intro s h
-  rw [writeBackWithDuplicate_eq] at h ⊢
   cases ht : s.cache.tag with
-  | none => simp only [ht] at h; exact absurd rfl h
+  | none => rw [writeBackDup_none dup ht] at h; exact absurd rfl h
   | some idx =>
-    simp only [ht] at h ⊢
-    exact FaultStrict.bind (FaultStrict.devWrite idx) (fun _ => FaultStrict.devWrite dup) s h
+    rcases devWrite_result idx s with hr | hr
+    · rcases devWrite_result dup (Model.devWrite idx s).2 with hr2 | hr2
+      · rw [writeBackDup_ok_ok dup ht hr hr2] at h ⊢
+        have h1 := FaultStrict.devWrite idx s
+        have h2 := FaultStrict.devWrite dup (Model.devWrite idx s).2
+        by_cases hq : (Model.devWrite idx s).2.dev.failed = s.dev.failed
+        · exact h2 (by rw [hq]; exact h)
+        · rw [h1 hq] at hr; cases hr
+      · rw [writeBackDup_ok_fail dup ht hr hr2]
+    · rw [writeBackDup_fail dup ht hr]
 
 theorem FaultMono.writeBackWithDuplicate (dup : Nat) : FaultMono (writeBackWithDuplicate dup) := by
   intro s
-  rw [writeBackWithDuplicate_eq]
   cases ht : s.cache.tag with
-  | none => simp only [ht]; exact Nat.le_refl _
+  | none => rw [writeBackDup_none dup ht]; exact Nat.le_refl _
   | some idx =>
-    simp only [ht]
-    exact F.Inv.bind (FaultMono.devWrite idx) (fun _ => FaultMono.devWrite dup) s
+    have h1 := FaultMono.devWrite idx s
+    have h2 := FaultMono.devWrite dup (Model.devWrite idx s).2
+    rcases devWrite_result idx s with hr | hr
+    · rcases devWrite_result dup (Model.devWrite idx s).2 with hr2 | hr2
+      · rw [writeBackDup_ok_ok dup ht hr hr2]; exact Nat.le_trans h1 h2
+      · rw [writeBackDup_ok_fail dup ht hr hr2]; exact Nat.le_trans h1 h2
+    · rw [writeBackDup_fail dup ht hr]; exact h1
 
 /-- The cache is coherent: a tagged buffer holds what the medium holds at that block. -/
 def Coh (s : FS) : Prop := ∀ i, s.cache.tag = some i → s.cache.blk = s.dev.disk.get i
